@@ -11,7 +11,7 @@ Theorem C17_wrap_terminates :
          forall (fuel : nat) (line : list N) (acc : str),
          (Datatypes.length line < fuel)%nat ->
          wrap_line_opt fuel line l prefix acc = Some (wrap_line_fuel fuel line l prefix acc).
-Proof. exact C17_wrap_fuel_never_exhausted. Qed.
+Proof. exact @C17_wrap_fuel_never_exhausted. Qed.
 Print Assumptions C17_wrap_terminates.
 
 Theorem C17_wrap_fuel_irrelevant :
@@ -19,7 +19,7 @@ Theorem C17_wrap_fuel_irrelevant :
          (2 <= l)%nat ->
          wrap_line_fuel (S (Datatypes.length line) + k) line l prefix acc =
          wrap_line_fuel (S (Datatypes.length line)) line l prefix acc.
-Proof. exact C17_wrap_fuel. Qed.
+Proof. exact @C17_wrap_fuel. Qed.
 Print Assumptions C17_wrap_fuel_irrelevant.
 
 (* every line of a wrapped description has at most max(width,10) characters (a hard-broken piece: body plus hyphen) *)
@@ -33,7 +33,7 @@ Theorem C17_line_width :
           exists pieces : list str,
             wrap_line line l' prefix = join pieces ([10] ++ prefix) /\
             Forall (fun p : list N => p <> []) pieces /\ Forall (piece_ok l') pieces).
-Proof. exact C17_wrap_width_text. Qed.
+Proof. exact @C17_wrap_width_text. Qed.
 Print Assumptions C17_line_width.
 
 Theorem C17_line_width_pieces :
@@ -43,20 +43,20 @@ Theorem C17_line_width_pieces :
            pieces = wrap_pieces (S (Datatypes.length (trim_space line))) (trim_space line) l /\
            wrap_line line l prefix = join pieces ([10] ++ prefix) /\
            Forall (fun p : list N => p <> []) pieces /\ Forall (piece_ok l) pieces.
-Proof. exact C17_wrap_width. Qed.
+Proof. exact @C17_wrap_width. Qed.
 Print Assumptions C17_line_width_pieces.
 
 (* the wrapped text contains the original characters in the original order: nothing lost, duplicated, reordered or corrupted (white space and hyphens aside), for arbitrary byte strings *)
 Theorem C17_words_preserved :
   forall (s : str) (l : Z) (prefix : str),
          all_spaces prefix -> strip_runes (wrap_text s l prefix) = strip_runes s.
-Proof. exact C17_wrap_preserves_runes. Qed.
+Proof. exact @C17_wrap_preserves_runes. Qed.
 Print Assumptions C17_words_preserved.
 
 Theorem C17_words_preserved_ascii :
   forall (s : str) (l : Z) (prefix : str),
          ascii s -> all_spaces prefix -> strip (wrap_text s l prefix) = strip s.
-Proof. exact C17_wrap_preserves_characters. Qed.
+Proof. exact @C17_wrap_preserves_characters. Qed.
 Print Assumptions C17_words_preserved_ascii.
 
 (* valid UTF-8 stays valid UTF-8 on both sides of every cut *)
@@ -67,7 +67,7 @@ Theorem C17_cuts_at_character_boundaries :
          range_str line = range_str (firstn pos line) ++ map (shift pos) (range_str (skipn pos line)) /\
          runes line = runes (firstn pos line) ++ runes (skipn pos line) /\
          (valid_utf8 line = true -> valid_utf8 (firstn pos line) = true /\ valid_utf8 (skipn pos line) = true).
-Proof. exact C17_wrap_cut_utf8_safe. Qed.
+Proof. exact @C17_wrap_cut_utf8_safe. Qed.
 Print Assumptions C17_cuts_at_character_boundaries.
 
 Theorem C17_rune_offset_is_boundary :
@@ -84,7 +84,7 @@ Theorem C17_rune_offset_is_boundary :
          rune_count (firstn off line) = Nat.min n (rune_count line) /\
          valid_utf8 line = valid_utf8 (firstn off line) && valid_utf8 (skipn off line) /\
          (valid_utf8 line = true -> valid_utf8 (firstn off line) = true /\ valid_utf8 (skipn off line) = true).
-Proof. exact C17_wrap_utf8_safe. Qed.
+Proof. exact @C17_wrap_utf8_safe. Qed.
 Print Assumptions C17_rune_offset_is_boundary.
 
 (* an option row whose name is dominated by the alignment record never makes strings.Repeat panic: the padding is strictly positive *)
@@ -104,6 +104,139 @@ Theorem C17_no_negative_padding :
                (if nonempty (o_desc o)
                 then spaces (description_start a + 2 - rune_count (help_line2 cfg o ns a))
                 else []) ++ rest)).
-Proof. exact C17_no_negative_padding_option. Qed.
+Proof. exact @C17_no_negative_padding_option. Qed.
 Print Assumptions C17_no_negative_padding.
+
+(* ---- added by bin/mkprops (batch 2) ---- *)
+From GoFlags Require Import Base.Str Base.Utf8 Golib.Strings Golib.Strconv Model.Types Model.Tag Model.Scan Model.Lookup Model.Convert Model.State Model.Closest Model.Help Model.Parse Model.Ini Model.Complete.
+From GoFlags Require Import Proofs.HelpSafe.
+
+(* the alignment pass dominates every row it will print: name widths (with the 4-column indentation of non-root commands), short-name and value-name flags; it never touches the indentation flag *)
+Theorem C17_alignment_dominates_every_row :
+  forall (cfg : pconfig) (chain : list (list nat * command)) (a0 a : align),
+         a =
+         fold_left
+           (fun (a1 : align) (pc : list nat * command) => align_cmd cfg a1 (snd pc) (is_root_path (fst pc)))
+           chain a0 ->
+         ((al_maxlong a0 <= al_maxlong a)%nat /\
+          (al_hasshort a0 = true -> al_hasshort a = true) /\
+          (al_hasvalname a0 = true -> al_hasvalname a = true) /\ al_indent a = al_indent a0) /\
+         (forall (p : list nat) (c : command),
+          In (p, c) chain ->
+          (forall (g : group) (ns envns : list str) (o : opt),
+           In (g, ns, envns) (cmd_group_ctxs c) ->
+           group_show_in_help g = true ->
+           In o (grp_opts g) ->
+           opt_show_in_help o = true ->
+           (rune_count (long_with_ns (pc_nsdelim cfg) ns (o_long o) ++ o_valname o ++ choices_text o) +
+            (if is_root_path p then 0 else 4) <= al_maxlong a)%nat /\
+           (o_short o <> 0 -> al_hasshort a = true) /\ (o_valname o <> [] -> al_hasvalname a = true)) /\
+          (forall ar : arg,
+           In ar (cmd_args c) ->
+           (rune_count (a_name ar) + (if is_root_path p then 0 else 4) <= al_maxlong a)%nat)).
+Proof. exact @C17_align_dominates. Qed.
+Print Assumptions C17_alignment_dominates_every_row.
+
+(* the help traversal consults the row layout only at row sites, and there the record has the computed columns and the indentation actually in force *)
+Theorem C17_row_sites_use_the_computed_alignment :
+  forall (cfg : pconfig) (root : command) (r : rt),
+         (exists tl : list (list nat * command),
+            HelpSpec.help_chain root r = ([], root) :: tl /\
+            Forall (fun pc : list nat * command => is_root_path (fst pc) = false) tl) /\
+         al_indent (help_align cfg root r) = false /\
+         write_help_rows cfg root r = gen_write_help_rows cfg root r (model_ho cfg r) model_ha /\
+         (forall (ho1 ho2 : list nat -> command -> group -> list str -> list str -> opt -> align -> res str)
+            (ha1 ha2 : list nat -> command -> arg -> nat -> option str),
+          (forall (p : list nat) (c : command) (g : group) (ns envns : list str) (o : opt) (a : align),
+           help_opt_site cfg root r p c g ns envns o a -> ho1 p c g ns envns o a = ho2 p c g ns envns o a) ->
+          (forall (p : list nat) (c : command) (ar : arg) (dstart : nat),
+           help_arg_site cfg root r p c ar dstart -> ha1 p c ar dstart = ha2 p c ar dstart) ->
+          gen_write_help_rows cfg root r ho1 ha1 = gen_write_help_rows cfg root r ho2 ha2) /\
+         (forall (p : list nat) (c : command) (g : group) (ns envns : list str) (o : opt) (a : align),
+          help_opt_site cfg root r p c g ns envns o a ->
+          (al_indent a = true -> p <> []) /\
+          al_maxlong a = al_maxlong (help_align cfg root r) /\
+          al_hasshort a = al_hasshort (help_align cfg root r) /\
+          al_hasvalname a = al_hasvalname (help_align cfg root r) /\
+          (rune_count (long_with_ns (pc_nsdelim cfg) ns (o_long o) ++ o_valname o ++ choices_text o) +
+           (if al_indent a then 4 else 0) <= al_maxlong a)%nat /\
+          (o_short o <> 0 -> al_hasshort a = true) /\ (o_valname o <> [] -> al_hasvalname a = true)).
+Proof. exact @C17_indent_consistent. Qed.
+Print Assumptions C17_row_sites_use_the_computed_alignment.
+
+(* padding stays positive even for names that are not valid UTF-8 *)
+Theorem C17_padding_positive_any_names :
+  forall (cfg : pconfig) (r : rt) (o : opt) (ns envns : list str) (g : group) (a : align),
+         (rune_count (long_with_ns (pc_nsdelim cfg) ns (o_long o) ++ o_valname o ++ choices_text o) +
+          (if al_indent a then 4 else 0) <= al_maxlong a)%nat ->
+         (o_short o <> 0 -> al_hasshort a = true) ->
+         (o_valname o <> [] -> al_hasvalname a = true) ->
+         (rune_count (WrapSpec.help_line2 cfg o ns a) < description_start a + 2)%nat /\
+         (forall msg : str, help_option cfg r o ns envns g a <> Panic msg) /\
+         (exists out : str, help_option cfg r o ns envns g a = Ok out).
+Proof. exact @C17_no_negative_padding_any_names. Qed.
+Print Assumptions C17_padding_positive_any_names.
+
+(* for every parser and terminal width WriteHelp returns output; no negative repeat count, for any names *)
+Theorem C17_WriteHelp_never_panics :
+  forall (cfg : pconfig) (root : command) (r : rt),
+         (forall t : str, write_help_rows cfg root r <> Panic t) /\
+         (forall t : str, write_help cfg root r <> Panic t) /\
+         (exists (out : str) (rows : list hrow),
+            write_help_rows cfg root r = Ok (out, rows) /\ write_help cfg root r = Ok out).
+Proof. exact @C17_write_help_never_panics. Qed.
+Print Assumptions C17_WriteHelp_never_panics.
+
+(* the row is the name part padded to exactly the common column, then the description wrapped to max(10, cols - column) with continuation lines prefixed by exactly that many spaces *)
+Theorem C17_descriptions_share_one_column :
+  forall (cfg : pconfig) (r : rt) (o : opt) (ns envns : list str) (g : group) (a : align),
+         (rune_count (long_with_ns (pc_nsdelim cfg) ns (o_long o) ++ o_valname o ++ choices_text o) +
+          (if al_indent a then 4 else 0) <= al_maxlong a)%nat ->
+         (o_short o <> 0 -> al_hasshort a = true) ->
+         (o_valname o <> [] -> al_hasvalname a = true) ->
+         o_desc o <> [] ->
+         let col := (description_start a + 2)%nat in
+         let line2 := WrapSpec.help_line2 cfg o ns a in
+         let pad := spaces (col - rune_count line2) in
+         let desc := help_desc cfg r o ns envns g in
+         let width := if (cols cfg - Z.of_nat col <? 10)%Z then 10%nat else Z.to_nat (cols cfg - Z.of_nat col)
+           in
+         help_option cfg r o ns envns g a =
+         Ok (line2 ++ pad ++ wrap_text desc (cols cfg - Z.of_nat col) (spaces col) ++ [10]) /\
+         (rune_count line2 < col)%nat /\
+         rune_count (line2 ++ pad) = col /\
+         (10 <= width)%nat /\
+         wrap_text desc (cols cfg - Z.of_nat col) (spaces col) =
+         fold_left (glue_line (spaces col))
+           (map (fun ln : str => wrap_line ln width (spaces col)) (split desc [10])) [] /\
+         (forall ln : str,
+          exists pieces : list str,
+            wrap_line ln width (spaces col) = join pieces ([10] ++ spaces col) /\
+            Forall (fun p : list N => p <> []) pieces /\ Forall (WrapSpec.piece_ok width) pieces) /\
+         (~ In 10 desc ->
+          exists pieces : list str,
+            help_option cfg r o ns envns g a = Ok (line2 ++ pad ++ join pieces ([10] ++ spaces col) ++ [10]) /\
+            Forall (fun p : list N => p <> []) pieces /\ Forall (WrapSpec.piece_ok width) pieces).
+Proof. exact @C17_common_column. Qed.
+Print Assumptions C17_descriptions_share_one_column.
+
+Theorem C17_one_column_for_the_whole_help :
+  forall (cfg : pconfig) (root : command) (r : rt),
+         (forall (p : list nat) (c : command) (g : group) (ns envns : list str) (o : opt) (a : align),
+          help_opt_site cfg root r p c g ns envns o a ->
+          (description_start a + 2)%nat = (description_start (help_align cfg root r) + 2)%nat) /\
+         (forall (p : list nat) (c : command) (ar : arg) (dstart : nat),
+          help_arg_site cfg root r p c ar dstart ->
+          dstart = (description_start (help_align cfg root r) + 2)%nat /\
+          arg_pad ar dstart = Some (spaces (dstart - rune_count (s2l "  " ++ a_name ar ++ s2l ":"))) /\
+          rune_count
+            ((s2l "  " ++ a_name ar ++ s2l ":") ++
+             spaces (dstart - rune_count (s2l "  " ++ a_name ar ++ s2l ":"))) = dstart).
+Proof. exact @C17_common_column_help. Qed.
+Print Assumptions C17_one_column_for_the_whole_help.
+
+Theorem C17_concatenation_loses_at_most_3_runes :
+  forall b a : str, (rune_count a + rune_count b <= rune_count (a ++ b) + 3)%nat.
+Proof. exact @rune_count_app_le3. Qed.
+Print Assumptions C17_concatenation_loses_at_most_3_runes.
 
